@@ -260,6 +260,8 @@ def run(prog, rep):
                         bad = 'the not-loaded path (return false) leaves the previous / freshly created value in the %s' % kind
                     if ret == 1 and reset:
                         bad = 'the loaded path resets the %s' % kind
+                    if reset and ret not in (0, 1):
+                        bad = 'a path that resets the %s does not report "not loaded" (it returns the result of another call)' % kind
                 site = 'Serialize(%s)|%s' % (kind, 'keyed' if len(f.params) == 3 else 'unkeyed')
                 if bad:
                     rep.finding('R18.1c', site, f.loc(), 'Serialize(%s): %s' % (kind, bad), {'instantiation': f.id}, func=f.id)
@@ -322,6 +324,43 @@ def run(prog, rep):
                 rep.finding('R18.1c', 'SerializeFixedSizeArray', f.loc(), 'fixed-size array loader no longer throws when the number of loaded items '
                             'differs from the array size (in either direction)', func=f.id)
 
+    # ---------------------------------------------------------------- R18.4 fixed-size bit set: every position is loaded
+    rep.rule('R18.4', 'std::bitset loader: the loop that sets the bits runs over all N positions - its condition does not ask the archive '
+                      '(IsEnd / size) and its body has no break / return - or a throw follows a shortened loop: no position keeps its previous bit', floor=2)
+    n_bs = 0
+    for f in sorted(prog.funcs.values(), key=lambda x: x.id):
+        if not pattern_in_lib(f) or not is_load(f) or f.body is None or f.pq != 'BitSerializer::SerializeArray':
+            continue
+        d, nm = container_param(f)
+        ptype = next((f.type(p) for p in f.params if p.get('d') == d and 't' in p), '')
+        if not ptype.replace('const ', '').startswith('std::bitset<'):
+            continue
+        n_bs += 1
+        rep.touch(f)
+        arch = f.params[0]['d']
+        loops = [lp for lp in live_walk(f) if lp['k'] in ('ForStmt', 'WhileStmt', 'DoStmt', 'CXXForRangeStmt')
+                 and any(x['k'] == 'CXXMemberCallExpr' and receiver_is(f, x, d) and f.callee(x)['n'] in ('set', 'reset', 'flip', 'operator[]') for x in f.walk(lp))]
+        site = 'SerializeArray(bitset)|' + f.sym.get('targs', '')[:50]
+        if not loops:
+            rep.finding('R18.4', 'SerializeArray(bitset)|no loop', f.loc(), 'bitset loader: no loop that sets the bits of the target was found', func=f.id)
+            continue
+        bad = None
+        for lp in loops:
+            cond = child(lp, 'cond')
+            asks = cond is not None and any(x['k'] == 'CXXMemberCallExpr' and receiver_is(f, x, arch) for x in f.walk(cond))
+            body = child(lp, 'body')
+            exits = [x for x in f.walk(body) if x['k'] in ('BreakStmt', 'ReturnStmt')] if body is not None else []
+            later_throw = any(x['k'] == 'CXXThrowExpr' and x['l'] > lp['l'] and not any(y is x for y in f.walk(lp)) for x in live_walk(f))
+            if (asks or exits) and not later_throw:
+                bad = ('the loop condition asks the archive (%s)' % 'IsEnd' if asks else 'the loop body leaves the loop early') + \
+                    ' and nothing throws afterwards: a document with fewer items than bits leaves the remaining bits of a populated target as they were'
+        if bad:
+            rep.finding('R18.4', 'SerializeArray(bitset)|shortened loop', f.loc(loops[0]), 'bitset loader: ' + bad, {'instantiation': f.id}, func=f.id)
+        else:
+            rep.ok('R18.4', site)
+    if n_bs == 0 and getattr(rep, 'tier', 'quick') == 'thorough':
+        raise AnalysisBroken('R18.4: no load instantiation of SerializeArray(std::bitset) in the analysed units')
+
     from rules import seqload
     seqload.check(prog, rep, 'R18.3', select_seq)
 
@@ -370,3 +409,48 @@ def run(prog, rep):
             rep.ok('R18.2', site + '|' + f.id[-60:], sample={'modes_checked': ['OnlyExistKeys: no insert', 'UpdateKeys: no removal']} if seen < 2 else None)
     if seen == 0:
         raise AnalysisBroken('R18.2: the key-visiting lambda of SerializeMapImpl (with its switch over MapLoadMode) was not found')
+
+
+def check_wrapper_results(prog, rep, rule):
+    """optional / unique_ptr / shared_ptr loaders (keyed and unkeyed, every load instantiation): a path that empties the wrapper returns the
+    constant false and a path that returns true keeps the value - the 'loaded' flag the validators receive (Required) is false exactly when
+    the field holds nothing."""
+    n = 0
+    for f in sorted(prog.funcs.values(), key=lambda x: x.id):
+        if not pattern_in_lib(f) or not is_load(f) or f.body is None or f.pq != 'BitSerializer::Serialize' or not f.params:
+            continue
+        lt = f.tu['types'][f.params[-1]['t']]
+        kind = next((k for k in ('optional', 'unique_ptr', 'shared_ptr') if lt.startswith('std::%s<' % k)), None)
+        if kind is None:
+            continue
+        d = f.params[-1]['d']
+        rep.touch(f)
+        n += 1
+        g = CFG(f)
+        bad = None
+        for path, dec, knd in g.paths():
+            if knd != 'return':
+                continue
+            reset, ret = False, 'none'
+            for x in g.path_nodes(path):
+                if x['k'] == 'CXXMemberCallExpr' and receiver_is(f, x, d) and f.callee(x)['n'] == 'reset':
+                    reset = True
+                if x['k'] == 'CXXOperatorCallExpr' and x.get('op') == '=' and len(x['c']) > 2:
+                    lhs = strip(x['c'][1])
+                    if lhs is not None and lhs.get('d') == d and any(y.get('n') == 'nullopt' for y in f.walk(x['c'][2])):
+                        reset = True
+                if x['k'] == 'ReturnStmt':
+                    v = strip(child(x, 'value'))
+                    ret = v.get('cv', 'call') if v is not None else 'none'
+            if reset and ret != 0:
+                bad = 'a path that empties the %s returns %s instead of false: an explicit null / failed load is reported as loaded' % (
+                    kind, 'true' if ret == 1 else 'the result of another call')
+            if ret == 1 and reset:
+                bad = 'the path that reports "loaded" empties the %s' % kind
+        site = 'Serialize(%s)|%s' % (kind, 'keyed' if len(f.params) == 3 else 'unkeyed')
+        if bad:
+            rep.finding(rule, site, f.loc(), 'Serialize(%s): %s' % (kind, bad), {'instantiation': f.id}, func=f.id)
+        else:
+            rep.ok(rule, site + '|' + f.sym.get('targs', '')[:50])
+    if n < 6:
+        raise AnalysisBroken('%s: fewer than 6 wrapper loaders found (%d)' % (rule, n))
